@@ -662,9 +662,14 @@ def integral(a):
 
 
 def gen_x(rng, n, want_int):
-    pat = int(rng.integers(0, 5))
+    pat = int(rng.integers(0, 6))
     if want_int and pat in (2, 4):
         pat = 1
+    if pat == 5:
+        # large offset, tiny relative span (timestamps, byte offsets): x[0] and x[-1] differ by ~1e-7..1e-12 relative
+        off = float(int(10.0 ** rng.uniform(6, 12)))
+        x = off + np.cumsum(rng.integers(1, 5, n)).astype(float)
+        return x, pat
     if pat == 0:
         x = np.arange(n, dtype=float) + float(rng.integers(0, 4))
     elif pat == 1:
